@@ -10,7 +10,7 @@ from vf.xmodel import Schema, Rop, build_api, build_loader
 
 SHARDS = {'quick': 16, 'thorough': 32}
 TIMEOUT = {'quick': 900, 'thorough': 5400}
-MUST_HIT = ['IdFresh.instance-attribute', 'Generator.user-source-sequence', 'Generator.swapped', 'ArgModel.creation', 'IdFresh.defaulted-id', 'IdFresh.generator-next', 'Generator.peek',
+MUST_HIT = ['IdFresh.long-run-ids', 'IdFresh.instance-attribute', 'Generator.user-source-sequence', 'Generator.swapped', 'ArgModel.creation', 'IdFresh.defaulted-id', 'IdFresh.generator-next', 'Generator.peek',
             'Generator.integer-sequence', 'UnknownType.rejected', 'Referential.argument',
             'Schema.association-formalized-after-creations', 'Schema.iterations-between-definition-and-formalization', 'Schema.attribute-replaced',
             'Schema.attribute-added', 'Schema.attribute-removed', 'Generator.drawn-by-for-break',
@@ -367,8 +367,52 @@ def value(rng, ty):
     return 0 if rng.random() < 0.15 else rng.randint(1, 2 ** 127)
 
 
+def long_run(ctx, rng):
+    '''
+    One generator over thousands of draws: "never the null id, never repeats" must hold however many ids a
+    metamodel has handed out (a generator that prefetches in blocks, or counts in a fixed width, goes wrong late).
+    '''
+    import xtuml
+    n = rng.choice((700, 1500, 3000)) if ctx.tier == 'quick' else rng.choice((3000, 20000, 70000))
+    for gkind in ('uuid', 'default', 'integer'):
+        gen = {'uuid': xtuml.UUIDGenerator, 'integer': xtuml.IntegerGenerator, 'default': lambda: None}[gkind]()
+        m = xtuml.MetaModel(gen) if gen is not None else xtuml.MetaModel()
+        m.define_class('K', [('Id', 'unique_id'), ('N', 'integer'), ('Other', 'UNIQUE_ID')])
+        seen = set()
+        for i in range(n):
+            how = rng.random()
+            if how < 0.7:
+                inst = m.new('K')
+                got = [inst.Id, inst.Other]
+            elif how < 0.85:
+                got = [m.id_generator.next()]
+            else:
+                p = m.id_generator.peek()
+                got = [next(m.id_generator)]
+                if p != got[0]:
+                    raise Mismatch('generator/peek-advances', 'draw %d of a %s generator: peek gave %r, next %r'
+                                   % (len(seen), gkind, p, got[0]))
+            for v in got:
+                if not v:
+                    raise Mismatch('id/null', 'id number %d handed out by a %s generator is the null id (%r)'
+                                   % (len(seen) + 1, gkind, v))
+                if v in seen:
+                    raise Mismatch('id/repeated', 'id number %d handed out by a %s generator (%r) was handed out '
+                                   'before' % (len(seen) + 1, gkind, v))
+                seen.add(v)
+                if gkind == 'integer' and v != len(seen):
+                    raise Mismatch('generator/integer-sequence', 'value number %d of the integer generator is %r'
+                                   % (len(seen), v))
+        ctx.hit('IdFresh.long-run-ids', len(seen))
+        ctx.case(('long', gkind, n, ctx.shard), True)
+
+
 def run(ctx):
     rng = ctx.rng
+    try:
+        long_run(ctx, rng)
+    except Mismatch as e:
+        ctx.violation(e.key, e.what, case=dict(shard=ctx.shard, case='long-run'))
     for i in range(ctx.share(8000 if ctx.tier == 'quick' else 200000)):
         try:
             run_case(ctx, rng, i)
